@@ -327,7 +327,13 @@ def record(run):
     kc_mod._kcenters_iteration = w_iter
     km_mod._kmedoids_pam_update = w_pam
     klog.addHandler(handler)
-    klog.setLevel(logging.DEBUG)
+    # one run in four keeps the logger at its production level: its sweeps are validated at sweep granularity (no
+    # per-proposal records), and whatever the code does only when nobody is debugging is executed too
+    import zlib
+    if zlib.crc32(repr((run["pts"], run.get("init"), run.get("props"), run.get("seed"), run.get("sweeps"), run["k"])).encode()) % 4 != 3:
+        klog.setLevel(logging.DEBUG)
+    else:
+        tr["production_log_level"] = True
     res = None
     # a run of these tiny inputs takes milliseconds; one that does not come back (a loop whose guard can no longer
     # fail) is an observation, not a reason for the harness to wait for ever
